@@ -282,6 +282,16 @@ def case_task(states):
                 lp = d.log_prob(x)
                 if tuple(lp.shape) != (4,) or abs(float(torch.exp(lp[0])) * 4.0 * 0.5 - 1.0) > 1e-6 or abs(float(torch.exp(lp[1])) * 2.0 - 1.0) > 1e-6 or float(lp[2]) != -math.inf or float(lp[3]) != -math.inf:
                     fail("not_normalised", "BoxUniform log_prob %s on inside / outside points (volume 2)" % lp.tolist())
+                # a batch of boxes (volumes 2 and 4), and one-dimensional boxes that are not reinterpreted:
+                # every box normalises by its OWN volume
+                db = U.BoxUniform(low=torch.tensor([[-1.0, 2.0], [0.0, 0.0]]), high=torch.tensor([[3.0, 2.5], [1.0, 4.0]]))
+                lpb = db.log_prob(torch.tensor([[0.0, 2.25], [0.5, 1.0]]))
+                if tuple(lpb.shape) != (2,) or not torch.allclose(torch.exp(lpb), torch.tensor([0.5, 0.25]), atol=1e-6):
+                    fail("not_normalised", "a batch of two boxes (volumes 2 and 4): densities %s inside the boxes, expected [0.5, 0.25]" % torch.exp(lpb).tolist())
+                d0 = U.BoxUniform(low=torch.tensor([0.0, 1.0]), high=torch.tensor([2.0, 5.0]), reinterpreted_batch_ndims=0)
+                lp0 = d0.log_prob(torch.tensor([1.0, 2.0]))
+                if tuple(lp0.shape) != (2,) or not torch.allclose(torch.exp(lp0), torch.tensor([0.5, 0.25]), atol=1e-6):
+                    fail("not_normalised", "two one-dimensional boxes (reinterpreted_batch_ndims=0): densities %s, expected [0.5, 0.25]" % torch.exp(lp0).tolist())
             elif cls == "LotkaVolterra":
                 d = U.LotkaVolterraOscillating()
                 tot = integrate(lambda q: d.log_prob(q.float()), [(-5.0, 2.0)] * 4, panels=1, order=26)
